@@ -20,5 +20,5 @@ template <class To> static void to_all() {
   pair<To, long>(); pair<To, unsigned long>(); pair<To, long long>(); pair<To, unsigned long long>();
   pair<To, float>(); pair<To, double>(); pair<To, long double>(); pair<To, mpz_class>(); pair<To, mpq_class>();
 }
-void register_conv_b() { to_all<unsigned int>(); to_all<long>(); to_all<unsigned long>(); to_all<long long>(); to_all<unsigned long long>(); }
+void register_conv_b() { to_all<unsigned short>(); to_all<int>(); to_all<unsigned int>(); }
 }
